@@ -7,22 +7,25 @@ P("C23",
   technique="Coq proof over an executable model of the chunk buffer and of the transfer steps with an adversarial memory "
             "environment + exact correspondence by vm_compute (helper functions through a verif export; the real component "
             "tick by tick between two scripted byte memories); refutation witnesses for the known findings",
-  level_text="Proved for every script of the model (any moves, any order/delay of the two memories, arbitrary injected "
-             "responses, any back-pressure): c23_serial_one_ack (arrived moves = acknowledged ++ in-progress ++ waiting, in order; "
-             "each ack carries the ID of the move it closes and goes to its requester; no move acknowledged twice; one at a time) "
-             "and, when every ByteSize is a multiple of both granularities, c23_nothing_else_written (every write request lies "
-             "inside the destination range of an arrived move, on its destination side) and c23_copy_exact_partial (structural "
-             "invariant of the transfer; an ack is sent only when the write cursor is exactly at the end of the range and nothing "
-             "is outstanding). NOT proved: the byte content of the copy (covered only by the exact tie: final memory images are "
-             "compared on every run). c23_unaligned_size_refuted and c23_small_buffer_refuted are the confirmed defects. Model "
-             "and implementation are compared exactly: every helper result (incl. panics), and per tick all drained requests "
-             "with their generated IDs, acknowledgments, progress and active flags, and the final memory images.",
+  level_text="Proved for every script of the model (any moves, any order/delay of the two memories, any back-pressure): "
+             "c23_serial_one_ack (arrived moves = acknowledged ++ in-progress ++ waiting, in order; each ack carries the ID of the "
+             "move it closes and goes to its requester; no move acknowledged twice; one at a time, also with arbitrary injected "
+             "responses); when every ByteSize is a multiple of both granularities, c23_nothing_else_written (every write request "
+             "lies inside the destination range of an arrived move, on its destination side) and c23_transfer_structure; and for "
+             "moves between the two sides with ranges inside the memories and memories that answer exactly the requests they were "
+             "sent: c23_copy_exact (when an acknowledgment is sent the destination range holds exactly the bytes of the source "
+             "range, for every order in which the memories answer) and c23_source_stable (the source memory is not written while "
+             "the move is in progress, so these are the bytes held at acceptance). c23_unaligned_size_refuted and "
+             "c23_small_buffer_refuted are the confirmed defects. Model and implementation are compared exactly: every helper "
+             "result (incl. panics), and per tick all drained requests with their generated IDs, acknowledgments, progress and "
+             "active flags, the memory images at every acknowledgment and at the end.",
   level_note="Trusted: Coq kernel + vm_compute; the Go harness (scripted memories, verif export wrappers that only convert types); "
              "the hand-written model of comp.go / ctrlparsemw.go / datatransfermw.go.",
   assumptions=["no control traffic (the data mover stays Enabled); single-port mappers on both sides",
                "the memories answer every read with their current content and apply every write when they answer it, "
                "each request answered exactly once, in any order and after any delay",
-               "source and destination ranges do not overlap; nobody else writes the two memories during a move",
+               "c23_copy_exact / c23_source_stable: moves go from one side to the other (same-side moves are covered by the tie only), "
+               "no responses are injected, nobody but the data mover writes the two memories",
                "sequential ID generator; tracing calls are no-ops without hooks (checked by the exact ID tie)"],
   trusted=["modelled, not verified: mem/datamover/comp.go (buffer helpers, alignAddress, resolveByteGranularity), ctrlparsemw.go "
            "(parseFromCP, finishTransaction), datatransfermw.go (Tick and the four steps); ctrlmiddleware.go is not modelled"],
